@@ -422,6 +422,7 @@ class _Gen:
         self.tape, self.pos, self.neutral, self.budget = tape, 0, neutral, size
         self.ntok = 0
         self.max_depth = 3
+        self.cdepth = 0  # nesting of macro / caller calls inside call arguments (bounded: results repeat their arguments)
 
     # -- small draws: every choice reads one byte of the Hypothesis-drawn tape (0 = the first, simplest alternative;
     #    an exhausted tape keeps answering 0), which is ~30x cheaper than one st.integers() draw per choice
@@ -484,7 +485,7 @@ class _Gen:
         table = [("var", 10), ("lit", 4), ("litem", 2), ("ditem", 2), ("row", 2 if lex.rowvars else 0), ("rows0", 1),
                  ("libvar", 2 if any(d["lo"] for d in lex.libs.values()) else 0)]
         if not self.neutral:
-            table += [("mcall", 5 if self.callables(lex, False) else 0), ("caller", 4 if lex.caller is not None and lex.macro_kind == "m" else 0),
+            table += [("mcall", 5 if self.callables(lex, False) else 0), ("caller", 4 if lex.caller is not None and lex.macro_kind == "m" and self.cdepth < 2 else 0),
                       ("self", 2 if lex.blocks else 0), ("super", 3 if lex.super_ok else 0)]
         k = self.weighted(table)
         if k == "var":
@@ -515,10 +516,21 @@ class _Gen:
 
     def callables(self, lex, hi):
         """Names (plain or alias-qualified) of visible macros whose result kind is hi / lo."""
+        if self.cdepth >= 2:
+            return []
         return [n for n, d in lex.macros.items() if d["hi"] == hi and d["caller"] is None]
 
     def call(self, lex, name, with_caller=False):
         d = lex.macros[name]
+        args, kwargs = [], []
+        kw_mode = False
+        self.cdepth += 1
+        try:
+            return self._call(lex, d)
+        finally:
+            self.cdepth -= 1
+
+    def _call(self, lex, d):
         args, kwargs = [], []
         kw_mode = False
         for p, kind, has_default in d["params"]:
@@ -534,7 +546,11 @@ class _Gen:
         return ["call", d["callee"], args, kwargs]
 
     def caller_call(self, lex):
-        return ["call", ["v", "caller"], [self.lo_s(lex, 1) for _ in range(lex.caller)], []]
+        self.cdepth += 1
+        try:
+            return ["call", ["v", "caller"], [self.lo_s(lex, 1) for _ in range(lex.caller)], []]
+        finally:
+            self.cdepth -= 1
 
     # -- arguments for a filter -----------------------------------------------------------------------
     def filter_args(self, lex, name, d, spec=None, const=False):
@@ -778,7 +794,7 @@ class _Gen:
     # -- hi strings -----------------------------------------------------------------------------------
     def hi_atom(self, lex):
         table = [("var", 6 if lex.hi else 0), ("call", 8 if self.callables(lex, True) else 0),
-                 ("caller", 5 if lex.caller is not None and (self.neutral or lex.macro_kind == "u") else 0),
+                 ("caller", 5 if lex.caller is not None and (self.neutral or lex.macro_kind == "u") and self.cdepth < 2 else 0),
                  ("libvar", 2 if any(d["hi"] for d in lex.libs.values()) else 0)]
         if self.neutral:
             table += [("self", 3 if lex.blocks else 0), ("super", 4 if lex.super_ok else 0)]
